@@ -307,7 +307,7 @@ impl<'a> Interpreter<'a> {
                     stack.push_val(v.into());
                 }
                 ByteCode::MkDict(size) => {
-                    let mut map = HashMap::new();
+                    let mut entries = Vec::new();
 
                     for _ in 0..*size {
                         let key = if let CelValue::String(key) = stack.pop_val()? {
@@ -316,7 +316,15 @@ impl<'a> Interpreter<'a> {
                             return Err(CelError::value("Only strings can be used as Object keys"));
                         };
 
-                        map.insert(key, stack.pop_val()?);
+                        entries.push((key, stack.pop_val()?));
+                    }
+
+                    // entries come off the stack last-first; insert in source
+                    // order so that the last entry of a repeated key wins, as
+                    // it does when the literal is folded by the compiler
+                    let mut map = HashMap::new();
+                    for (key, value) in entries.into_iter().rev() {
+                        map.insert(key, value);
                     }
 
                     stack.push_val(map.into());
